@@ -311,6 +311,9 @@ var reEv = regexp.MustCompile(`^(?:emit "(mark|gc2|gcr|gc|rearm|enter|ctx|shared
 func runGC(ctx *core.RunCtx) {
 	g := &gcGen{t: ctx.Gen}
 	g.budget = 6 + ctx.Gen.Choose(20)
+	if ctx.Tier == "thorough" {
+		g.budget = 6 + ctx.Gen.Choose(70)
+	}
 	g.b.WriteString(gcPrelude)
 	g.stmts(3 + ctx.Gen.Choose(8))
 	g.ln(`emit("end")`)
